@@ -251,6 +251,10 @@ class LSMTree(Entity):
         # Immutable memtables awaiting flush (for reads during flush)
         self._immutable_memtables: list[Memtable] = []
 
+        # True while a compaction is suspended between choosing its input
+        # SSTables and installing its output
+        self._compaction_in_progress: bool = False
+
         # SSTable levels: levels[0] is L0 (most recent)
         self._levels: list[list[SSTable]] = [[] for _ in range(max_levels)]
 
@@ -564,6 +568,22 @@ class LSMTree(Entity):
             self._compact_sync()
 
     def _compact(self) -> Generator[float]:
+        """Run a compaction cycle, unless one is already in progress.
+
+        A compaction picks its input SSTables, suspends for the write latency
+        and only then replaces them. A second cycle started in between would
+        work from the same, soon stale, inputs and install an overlapping
+        SSTable next to the first one's output.
+        """
+        if self._compaction_in_progress:
+            return
+        self._compaction_in_progress = True
+        try:
+            yield from self._compact_once()
+        finally:
+            self._compaction_in_progress = False
+
+    def _compact_once(self) -> Generator[float]:
         """Run a compaction cycle."""
         source_level, sstables = self._compaction_strategy.select_compaction(self._levels)
         if not sstables:
@@ -575,10 +595,11 @@ class LSMTree(Entity):
         # Process from oldest to newest so newer values win
         merged_data: dict[str, Any] = {k: v for sst in sstables for k, v in sst.scan()}
 
-        # Also include overlapping SSTables from target level
+        # Also include overlapping SSTables from target level, newest first so
+        # that a newer table's value wins when two of them hold the same key
         overlapping = []
         if target_level != source_level:
-            for sst in self._levels[target_level]:
+            for sst in reversed(self._levels[target_level]):
                 if any(sst.overlaps(s) for s in sstables):
                     overlapping.append(sst)
                     for k, v in sst.scan():
@@ -619,6 +640,8 @@ class LSMTree(Entity):
 
     def _compact_sync(self) -> None:
         """Run compaction without yielding latency."""
+        if self._compaction_in_progress:
+            return
         source_level, sstables = self._compaction_strategy.select_compaction(self._levels)
         if not sstables:
             return
@@ -629,7 +652,7 @@ class LSMTree(Entity):
 
         overlapping = []
         if target_level != source_level:
-            for sst in self._levels[target_level]:
+            for sst in reversed(self._levels[target_level]):
                 if any(sst.overlaps(s) for s in sstables):
                     overlapping.append(sst)
                     for k, v in sst.scan():
